@@ -3,12 +3,22 @@
 package sim
 
 import (
+	"fmt"
+	"io"
+	"strings"
 	"time"
 
+	metav1 "k8s.io/apimachinery/pkg/apis/meta/v1"
+	generator "k8s.io/kube-state-metrics/v2/pkg/metric_generator"
 	testingclock "k8s.io/utils/clock/testing"
 	"sigs.k8s.io/controller-runtime/pkg/reconcile"
 
+	edsv1 "github.com/DataDog/extendeddaemonset/api/v1alpha1"
+	edsctrl "github.com/DataDog/extendeddaemonset/controllers/extendeddaemonset"
 	ersctrl "github.com/DataDog/extendeddaemonset/controllers/extendeddaemonsetreplicaset"
+	canarycmd "github.com/DataDog/extendeddaemonset/pkg/plugin/canary"
+	freezecmd "github.com/DataDog/extendeddaemonset/pkg/plugin/freeze"
+	pausecmd "github.com/DataDog/extendeddaemonset/pkg/plugin/pause"
 )
 
 // HooksEnabled says whether the harness was built with the verif hooks of /repo.
@@ -28,4 +38,106 @@ func (c *Cluster) advanceBackOffClock(d time.Duration) {
 	if c.backoffClock != nil {
 		c.backoffClock.Step(d)
 	}
+}
+
+// RunCmd runs the body of a kubectl-eds command through the verif shim with the instrumented "cmd" client.
+func RunCmd(c *Cluster, key, name string) (Event, error) {
+	ns, n := splitKey(key)
+	a := c.actors["cmd"]
+	c.mu.Lock()
+	a.writes, a.reads = nil, 0
+	c.mu.Unlock()
+	var err error
+	switch name {
+	case "canary-pause":
+		err = canarycmd.VerifRunPause(a.Client, ns, n, true, io.Discard)
+	case "canary-unpause":
+		err = canarycmd.VerifRunPause(a.Client, ns, n, false, io.Discard)
+	case "canary-validate":
+		err = canarycmd.VerifRunValidate(a.Client, ns, n, io.Discard)
+	case "canary-fail":
+		err = canarycmd.VerifRunFail(a.Client, ns, n, io.Discard)
+	case "ru-pause":
+		err = pausecmd.VerifRun(a.Client, ns, n, true, io.Discard)
+	case "ru-unpause":
+		err = pausecmd.VerifRun(a.Client, ns, n, false, io.Discard)
+	case "freeze":
+		err = freezecmd.VerifRun(a.Client, ns, n, true, io.Discard)
+	case "unfreeze":
+		err = freezecmd.VerifRun(a.Client, ns, n, false, io.Discard)
+	default:
+		return Event{}, fmt.Errorf("unknown command %s", name)
+	}
+	c.mu.Lock()
+	ev := Event{Key: key, Writes: append([]Write{}, a.writes...), Reads: a.reads, Args: map[string]string{"_": "", "v": name}}
+	c.mu.Unlock()
+	ev.Res = Result{Err: err != nil}
+	if err != nil {
+		ev.Res.ErrMsg, ev.Res.ErrKind, ev.Res.NErrs = err.Error(), "refused", 1
+	}
+	return ev, nil
+}
+
+func init() { DefaultCmd = RunCmd }
+
+// fnMetrics builds an object from the vector, runs the real metric family generators and returns name -> value
+// (first metric of each family) plus the label pairs of the *_labels family.
+func fnMetrics(v *FnVector) map[string]interface{} {
+	out := map[string]interface{}{"panic": false}
+	vals := map[string]float64{}
+	var lkeys, lvals []string
+	p := safely(func() {
+		var fams []generator.FamilyGenerator
+		var obj interface{}
+		meta := metav1.ObjectMeta{Namespace: "ns1", Name: "foo", Labels: map[string]string{"extendeddaemonset.datadoghq.com/name": "foo", "team": "x"}, Annotations: map[string]string{}}
+		if v.Kind == "eds" {
+			e := &edsv1.ExtendedDaemonSet{ObjectMeta: meta}
+			e.Status.Desired, e.Status.Current, e.Status.Ready = int32(v.Status["desired"]), int32(v.Status["current"]), int32(v.Status["ready"])
+			e.Status.Available, e.Status.UpToDate, e.Status.IgnoredUnresponsiveNodes = int32(v.Status["available"]), int32(v.Status["upToDate"]), int32(v.Status["ignored"])
+			if v.Flags["canary"] {
+				e.Status.Canary = &edsv1.ExtendedDaemonSetStatusCanary{ReplicaSet: "foo-x"}
+				for i := 0; i < v.Status["canaryNodes"]; i++ {
+					e.Status.Canary.Nodes = append(e.Status.Canary.Nodes, fmt.Sprintf("n%d", i))
+				}
+			}
+			// the gauges mirror status.state (itself a function of the annotations, C08/C14)
+			e.Status.State = edsv1.ExtendedDaemonSetStatusStateRunning
+			if v.Flags["ruPaused"] {
+				e.Status.State = edsv1.ExtendedDaemonSetStatusStateRollingUpdatePaused
+			}
+			if v.Flags["frozen"] {
+				e.Status.State = edsv1.ExtendedDaemonSetStatusStateRolloutFrozen
+			}
+			fams, obj = edsctrl.VerifMetricFamilies(), e
+		} else {
+			r := &edsv1.ExtendedDaemonSetReplicaSet{ObjectMeta: meta}
+			r.Status.Desired, r.Status.Current, r.Status.Ready = int32(v.Status["desired"]), int32(v.Status["current"]), int32(v.Status["ready"])
+			r.Status.Available, r.Status.IgnoredUnresponsiveNodes = int32(v.Status["available"]), int32(v.Status["ignored"])
+			if v.Flags["failed"] {
+				r.Status.Conditions = append(r.Status.Conditions, edsv1.ExtendedDaemonSetReplicaSetCondition{Type: edsv1.ConditionTypeCanaryFailed, Status: "True"})
+			}
+			fams, obj = ersctrl.VerifMetricFamilies(), r
+		}
+		for _, f := range fams {
+			fam := f.GenerateFunc(obj)
+			if fam == nil || len(fam.Metrics) == 0 {
+				continue
+			}
+			vals[f.Name] = fam.Metrics[0].Value
+			if strings.HasSuffix(f.Name, "_labels") {
+				lkeys, lvals = fam.Metrics[0].LabelKeys, fam.Metrics[0].LabelValues
+			}
+		}
+	})
+	out["panic"] = p
+	iv := map[string]int{}
+	for k, x := range vals {
+		iv[k] = int(x)
+	}
+	out["values"] = iv
+	if lkeys == nil {
+		lkeys, lvals = []string{}, []string{}
+	}
+	out["labelKeys"], out["labelValues"] = lkeys, lvals
+	return out
 }
